@@ -685,7 +685,7 @@ func genC03(c *Ctx) {
 	vers := c03Versions()
 
 	// 1. round trip: every version x generated proto-events
-	n := c.Scale(40, 400)
+	n := c.Scale(30, 400)
 	for _, ver := range vers {
 		for i := 0; i < n; i++ {
 			a := g.proto(ver)
@@ -812,7 +812,7 @@ func genC03(c *Ctx) {
 		}
 	}
 	// 3. edits
-	n = c.Scale(25, 250)
+	n = c.Scale(20, 250)
 	uvals := []string{`{}`, `{"age":5}`, `{"age":77,"prev_content":{"membership":"join"}}`, `{"x":[1,2,{"y":null}]}`, `{"age":9007199254740992}`, `"str"`, `null`}
 	for _, ver := range vers {
 		for i := 0; i < n; i++ {
@@ -889,6 +889,22 @@ func genC03(c *Ctx) {
 			mut("tamper-content", false, set("content", `{"body":"tampered","membership":"join","creator":"@x:y"}`))
 			mut("tamper-depth", false, set("depth", `123456`))
 			mut("tamper-type", false, set("type", `"m.room.other"`))
+			// a hash fault together with each key that is discarded on receipt
+			for _, kv := range [][2]string{{"unsigned", `{"age":1}`}, {"age_ts", `5`}, {"outlier", `true`}, {"destinations", `["x"]`},
+				{"event_id", `"$fake:x"`}, {"event_id", `"$` + strings.Repeat("A", 43) + `"`}} {
+				kv := kv
+				mut("tamper-content+"+kv[0], false, func(m map[string]json.RawMessage) {
+					m["content"] = json.RawMessage(`{"body":"tampered","membership":"join"}`)
+					m[kv[0]] = json.RawMessage(kv[1])
+				})
+				if i > 0 && !c.Thorough() {
+					continue
+				}
+				mut("tamper-depth+"+kv[0], false, func(m map[string]json.RawMessage) {
+					m["depth"] = json.RawMessage(`654321`)
+					m[kv[0]] = json.RawMessage(kv[1])
+				})
+			}
 			mut("underscore-key", true, set("_x", `1`))
 			mut("hashes-missing", false, func(m map[string]json.RawMessage) { delete(m, "hashes") })
 			mut("hashes-not-base64", false, set("hashes", `{"sha256":"!!!"}`))
@@ -904,7 +920,7 @@ func genC03(c *Ctx) {
 	}
 	// 4. variants: one field changed (IDs must differ) or only unsigned / signatures / key ID
 	// changed (IDs must be equal)
-	n = c.Scale(30, 300)
+	n = c.Scale(22, 300)
 	for _, ver := range vers {
 		for i := 0; i < n; i++ {
 			a := g.proto(ver)
